@@ -125,15 +125,32 @@ def gen_schema(rng, handlers=False, rich=True):
         return children
 
     avail = list(absnames)
+    neutral = set()       # types whose inherited fixed names are fixed points of every key type
     for i in range(ncon):
         n = "type%d" % i
         kt = rng.choice(kts)
         r = rng.random()
         sdt = rng.choice([None, None, "zcvdt.wrap", "zcvdt.sectmarker"])
-        if r < 0.25 and connames and rich:
-            base = rng.choice(connames)
-            t = F.TypeD(n, gen_children_ext(rng, base, types, gen_children, avail), None, sdt if rng.random() < 0.5 else None,
+        if r < 0.15 and rich:
+            # a "neutral" base: lower-case alphanumeric fixed names, wildcard defaults with mixed-case keys
+            ch = [F.KeyD(nm, rng.choice(["string", "integer", "boolean"]), False, False, None, None, handler())
+                  for nm in rng.sample(["alpha", "kappa9", "omega"], rng.randint(0, 2))]
+            multi = rng.random() < 0.5
+            dk = [("Alpha1", "x"), ("Beta2", "y")] + ([("Alpha1", "z")] if multi else [])
+            ch.append(F.KeyD("+", "string", multi, False, dk[: rng.randint(1, len(dk))], "nmap", handler()))
+            rng.shuffle(ch)
+            types.append(F.TypeD(n, ch, None, sdt, implements=rng.choice(absnames) if absnames and rng.random() < 0.5 else None))
+            connames.append(n)
+            avail.append(n)
+            neutral.add(n)
+            continue
+        if r < 0.4 and connames and rich:
+            base = rng.choice(sorted(neutral)) if neutral and rng.random() < 0.6 else rng.choice(connames)
+            newkt = rng.choice(["identifier", "ipaddr-or-hostname", "basic-key"]) if base in neutral and rng.random() < 0.7 else None
+            t = F.TypeD(n, gen_children_ext(rng, base, types, gen_children, avail), newkt, sdt if rng.random() < 0.5 else None,
                         extends=base, implements=rng.choice(absnames) if absnames and rng.random() < 0.4 else None)
+            if base in neutral:
+                neutral.add(n)
         else:
             t = F.TypeD(n, gen_children(kt, avail, True), kt if kt != "basic-key" or rng.random() < 0.3 else None, sdt,
                         implements=rng.choice(absnames) if absnames and rng.random() < 0.6 else None)
